@@ -57,24 +57,43 @@ func callResultType(cc *ssa.CallCommon) types.Type {
 
 func (fc *FnCtx) noteTrusted(s string) { fc.trustedUsed[s] = true }
 
+type anchorKey struct {
+	pos  token.Pos
+	name string
+}
+
 // anchor handling: the enclosing function's contract may attach assertions / ghost updates to call sites.
 func (fc *FnCtx) anchorBefore(anchor string, pos token.Pos) { fc.runAnchors(anchor, "before", pos) }
 func (fc *FnCtx) anchorAfter(anchor string, pos token.Pos)  { fc.runAnchors(anchor, "after", pos) }
 
 func (fc *FnCtx) runAnchors(anchor, when string, pos token.Pos) {
-	if fc.c == nil || fc.inlineDepth > 0 {
+	if fc.inlineDepth > 0 {
+		return
+	}
+	if fc.probe {
+		if when == "before" {
+			fc.anchorLog = append(fc.anchorLog, anchorKey{pos, anchor})
+		}
+		return
+	}
+	if fc.c == nil {
 		return
 	}
 	var ord int
 	if when == "before" {
-		ord = fc.ordinal("anchor:" + anchor)
+		ord = fc.eng.anchorOrds[fc.fn][anchorKey{pos, anchor}]
+		if ord == 0 {
+			ord = 1000 + fc.ordinal("anchor:"+anchor)
+		}
 		fc.anchorOrd[anchor] = ord
 	} else {
 		ord = fc.anchorOrd[anchor]
 	}
 	full := fmt.Sprintf("%s#%d", anchor, ord)
+	fc.anchorsSeen[full] = true
 	for _, a := range fc.c.Asserts {
 		if a.When == when && (a.Anchor == full || a.Anchor == anchor+"#*") {
+			fc.anchorsHit[a] = true
 			env := fc.anchorEnv()
 			goal := env.evalBool(a.Expr)
 			fc.oblige("assert", strings.ReplaceAll(full, " ", "_"), goal, pos, "assert "+when+" "+full+": "+a.Src)
@@ -82,6 +101,7 @@ func (fc *FnCtx) runAnchors(anchor, when string, pos token.Pos) {
 	}
 	for _, u := range fc.c.GhostUpd {
 		if u.When == when && (u.Anchor == full || u.Anchor == anchor+"#*") {
+			fc.anchorsHit[u] = true
 			env := fc.anchorEnv()
 			v := env.eval(u.Expr)
 			fc.ghostSet(u.Ghost, v, env)
@@ -101,6 +121,19 @@ func (fc *FnCtx) anchorEnv() *Env {
 		}
 	}
 	st := fc.cur
+	for i, a := range fc.anchorArgs {
+		env.vars[fmt.Sprintf("arg%d", i)] = a
+	}
+	if fc.anchorRes != nil {
+		r := *fc.anchorRes
+		env.vars["ret"] = r
+		if tp, ok := r.T.(*types.Tuple); ok {
+			for i := 0; i < tp.Len(); i++ {
+				off, n := tupleRange(tp, i)
+				env.vars[fmt.Sprintf("ret%d", i)] = Val{T: tp.At(i).Type(), L: r.L[off : off+n]}
+			}
+		}
+	}
 	env.local = func(name string) (Val, bool) {
 		v, isAddr, ok := fc.lookupLocal(name, b, idx)
 		if !ok {
@@ -122,10 +155,18 @@ func (fc *FnCtx) calleeKey(fn *ssa.Function) string { return fc.eng.fnName(fn) }
 func (fc *FnCtx) callFunction(callee *ssa.Function, args []Val, binds []Val, pos token.Pos, resT types.Type) Val {
 	key := fc.calleeKey(callee)
 	short := shortCallee(key)
-	anchor := "call " + short
+	anchor := "call " + fc.anchorName(callee)
+	fc.anchorArgs = args
 	fc.anchorBefore(anchor, pos)
-	defer fc.anchorAfter(anchor, pos)
+	r := fc.callFunction2(callee, args, binds, pos, resT, key, short)
+	fc.anchorArgs = args
+	fc.anchorRes = &r
+	fc.anchorAfter(anchor, pos)
+	fc.anchorRes = nil
+	return r
+}
 
+func (fc *FnCtx) callFunction2(callee *ssa.Function, args []Val, binds []Val, pos token.Pos, resT types.Type, key, short string) Val {
 	if r, ok := fc.specialCall(callee, args, pos, resT); ok {
 		return r
 	}
@@ -150,6 +191,18 @@ func (fc *FnCtx) callFunction(callee *ssa.Function, args []Val, binds []Val, pos
 	// foreign function without a contract
 	fc.foreignEffects(callee.Signature, args, key)
 	return fc.freshValWF("r_"+short, resT)
+}
+
+// anchorName: callee name as written in anchors: package-relative for callees of the same package.
+func (fc *FnCtx) anchorName(callee *ssa.Function) string {
+	root := callee
+	for root.Parent() != nil {
+		root = root.Parent()
+	}
+	if root.Pkg != nil && fc.pkg != nil && root.Pkg.Pkg == fc.pkg {
+		return callee.RelString(fc.pkg)
+	}
+	return shortCallee(fc.eng.fnName(callee))
 }
 
 func shortCallee(key string) string {
@@ -266,6 +319,13 @@ func (fc *FnCtx) havocForContract(callee *ssa.Function, c *Contract, env *Env, p
 				userErr("modifies item %s: %v", item, err)
 			}
 			precise = append(precise, env.eval(e))
+		case strings.HasPrefix(item, "mapof "):
+			e, err := parseExprSrc(strings.TrimPrefix(item, "mapof "))
+			if err != nil {
+				userErr("modifies item %s: %v", item, err)
+			}
+			mv := env.eval(e)
+			fc.eng.mapStateNames(mv.T.Underlying().(*types.Map), ns)
 		case strings.HasPrefix(item, "elems "):
 			// elems T : element storage of slices of T
 			e, err := parseExprSrc(strings.TrimPrefix(item, "elems "))
@@ -452,9 +512,18 @@ func (fc *FnCtx) doInvoke(cc *ssa.CallCommon, args []Val, pos token.Pos, resT ty
 	mname := cc.Method.Name()
 	fc.oblige("nil", "invoke", not(eq(recv.L[0], bvLit(0, 16))), pos, "method call on nil interface")
 	ikey := fc.eng.ifaceMethodKey(it, mname)
-	anchor := "call " + shortCallee(ikey)
+	anchor := "call " + strings.TrimPrefix(shortCallee(ikey), fc.pkg.Name()+".")
+	fc.anchorArgs = append([]Val{recv}, args...)
 	fc.anchorBefore(anchor, pos)
-	defer fc.anchorAfter(anchor, pos)
+	r := fc.doInvoke2(cc, recv, it, mname, ikey, args, pos, resT)
+	fc.anchorArgs = append([]Val{recv}, args...)
+	fc.anchorRes = &r
+	fc.anchorAfter(anchor, pos)
+	fc.anchorRes = nil
+	return r
+}
+
+func (fc *FnCtx) doInvoke2(cc *ssa.CallCommon, recv Val, it types.Type, mname, ikey string, args []Val, pos token.Pos, resT types.Type) Val {
 
 	if r, ok := fc.specialInvoke(cc, recv, args, pos, resT); ok {
 		return r
@@ -601,6 +670,11 @@ func (fc *FnCtx) applyIfaceContract(c *Contract, cc *ssa.CallCommon, recv Val, a
 // builtins
 
 func (fc *FnCtx) doBuiltin(b *ssa.Builtin, cc *ssa.CallCommon, args []Val, pos token.Pos, resT types.Type) Val {
+	if b.Name() == "copy" || b.Name() == "append" || b.Name() == "close" {
+		fc.anchorArgs = args
+		fc.anchorBefore("call "+b.Name(), pos)
+		defer fc.anchorAfter("call "+b.Name(), pos)
+	}
 	switch b.Name() {
 	case "len", "cap":
 		v := args[0]
